@@ -396,10 +396,19 @@ func runC03(c *Ctx) {
 	}
 	// judge
 	cells := map[string]int{}
+	confirmations := 0
 	for _, q := range all {
 		c.Ev.Eval(1)
 		sig, what := c03Judge(b, q)
 		if sig == "no-response" || sig == "late-response" {
+			if c.Seen(sig + ":" + q.Listener) {
+				continue // already have a confirmed witness of this shape; each confirmation costs up to 30 s
+			}
+			if confirmations >= 8 {
+				c.Inconclusive("confirmation budget used up: " + what)
+				continue
+			}
+			confirmations++
 			// confirmation: re-run the same query alone, three times, on the now quiet proxy
 			fails := 0
 			for k := 0; k < 3 && b.Proxy.Alive(); k++ {
